@@ -31,6 +31,10 @@ func (c02) Gen(seed uint64, run int, tier string) *Plan {
 	p.Knobs["ops"] = 1 + r.Intn(2)
 	if r.Intn(4) == 0 {
 		p.Knobs["zero"] = 1 // one more agent, registered with the all-zero key and IV
+	} else if r.Intn(4) == 0 {
+		// one more agent whose IV sits right below a carry of the CTR counter (the counter is the
+		// whole 16-byte block, as in the Demon's AesXCryptBuffer): ...fffffffe, ...ffffffff, all 0xff
+		p.Knobs["zero"] = 2 + r.Intn(3)
 	}
 	if run%8 == 5 {
 		p.Knobs["big"] = 1 // 64 KiB strings, 256 KiB payloads
@@ -49,7 +53,10 @@ func (c02) Gen(seed uint64, run int, tier string) *Plan {
 	if conc {
 		p.Knobs["ops"] = 2
 	}
-	nd := p.Knobs["demons"] + p.Knobs["zero"]
+	nd := p.Knobs["demons"]
+	if p.Knobs["zero"] > 0 {
+		nd++
+	}
 	cat := world.TaskCatalogue
 	task := func(d int) Action {
 		e := cat[r.Intn(len(cat))]
@@ -64,6 +71,17 @@ func (c02) Gen(seed uint64, run int, tier string) *Plan {
 		rounds = 1 + r.Intn(2)
 	}
 	for k := 0; k < rounds; k++ {
+		if r.Intn(6) == 0 {
+			// the agent answers a "checkin" task with a new session key in the very request that
+			// asks for its jobs: what it is handed must be readable under the new key
+			d := r.Intn(nd)
+			p.Actions = append(p.Actions, Action{Kind: "task", A: 0, B: d, S: "checkin", D: 1 + r.Intn(1<<30)}, Action{Kind: "checkin", B: d})
+			for i := 0; i < 1+r.Intn(4); i++ {
+				p.Actions = append(p.Actions, task(d))
+			}
+			p.Actions = append(p.Actions, Action{Kind: "rekey", B: d, D: r.Intn(1 << 30)})
+			continue
+		}
 		if conc && r.Intn(2) == 0 {
 			// two operators task one agent while it checks in
 			d := r.Intn(nd)
@@ -165,13 +183,37 @@ func (c02) Exec(p *Plan, dir string) *Result {
 		res.finish(w)
 		return res
 	}
-	if p.Knob("zero", 0) == 1 {
+	if z := p.Knob("zero", 0); z >= 1 {
 		d := w.NewDemon(uint32(0x01000000+r.Intn(0x7e000000)), w.Demons[0].Port)
 		d.Key = make([]byte, 32)
 		d.IV = make([]byte, 16)
+		if z >= 2 {
+			d.Key = randBytes(r, 32)
+			d.IV = randBytes(r, 16)
+			for i := 12; i < 16; i++ {
+				d.IV[i] = 0xff
+			}
+			switch z {
+			case 2:
+				d.IV[15] = 0xfe
+			case 4:
+				for i := range d.IV {
+					d.IV[i] = 0xff
+				}
+			}
+			res.Probe("agents-with-iv-below-a-counter-carry")
+		}
 		d.Meta = genMeta(r, len(w.Demons))
 		d.URI = w.Demons[0].URI
 		if _, ok := w.Register(d); !ok {
+			if z >= 2 {
+				// same key schedule, same mode, an IV like any other: the reference Demon's keystream
+				// (counter = the whole 16-byte block, big endian) and the teamserver's must agree
+				res.Violate("C02", "keystream", "iv-below-counter-carry", fmt.Sprintf("an agent whose IV is %x cannot register: its metadata (or the reply) is not decrypted the way the Demon encrypts it", d.IV), w.Sim)
+				res.NonTrivial = true
+				res.finish(w)
+				return res
+			}
 			res.HarnessError = "setup: the all-zero-key demon could not register"
 			res.finish(w)
 			return res
@@ -205,6 +247,30 @@ func (c02) Exec(p *Plan, dir string) *Result {
 			c, ts := w.Checkin(w.Demons[di])
 			st.verify(di, c, ts)
 			res.FP("batch", batchClass(len(ts)))
+		case "rekey":
+			di := a.B % len(w.Demons)
+			d := w.Demons[di]
+			var rid uint32
+			for id, t := range st.byRID[di] {
+				if t.tc.Cmd == world.CmdCheckin && t.got > 0 && (rid == 0 || id < rid) {
+					rid = id
+				}
+			}
+			if rid == 0 || c02AllZero(d.Key) {
+				continue
+			}
+			cr := simrt.NewRand(uint64(a.D) + 77)
+			nd := *d
+			nd.Key, nd.IV = randBytes(cr, 32), randBytes(cr, 16)
+			pk := append(d.Out, world.Pkg{Cmd: world.CmdCheckin, RID: rid, Body: nd.CheckinMetaBody()})
+			d.Out = nil
+			c := w.Do(world.AgentReq{Port: d.Port, URI: d.URI, Headers: d.Hdrs, Body: d.Frame(pk), Peer: d.Peer})
+			// the request travelled under the old key; from its own metadata on the agent uses the new one
+			d.Key, d.IV = nd.Key, nd.IV
+			delete(st.byRID[di], rid)
+			ts := w.Absorb(d, c)
+			st.verify(di, c, ts)
+			res.Probe("rekey-in-the-request-that-fetches-jobs")
 		case "par":
 			n := a.A
 			if i+n >= len(p.Actions) {
